@@ -291,7 +291,7 @@ class World:
         if fault == "send_partial" and n > 1:
             n = 1
             sock.pending_send_err = True
-        elif self.send_regime and n > 1:
+        elif self.send_regime and not str(self.send_regime).startswith("tail") and n > 1:
             n = {"3/4": max(1, (3 * n) // 4), "1/2": max(1, n // 2), "1": 1}[self.send_regime]
         elif self.send_choices and len(data) > 1:
             # default: everything accepted; alternatives: fewer bytes accepted (a partial send)
@@ -364,7 +364,10 @@ class World:
             out = bytes(sock.rx[:n])
             sock.rx.clear()
             return out
-        if self.chunk_choices and avail > 1:
+        if self.send_regime and str(self.send_regime).startswith("tail") and avail > int(self.send_regime[4:]):
+            # receive-side regime: every reply arrives in two TCP segments, the second one holding its last r bytes
+            n = avail - int(self.send_regime[4:])
+        elif self.chunk_choices and avail > 1:
             cands = [k for k in range(1, avail) if self.cutset is None or (sock.rx_delivered + k) in self.cutset]
             if cands:
                 c = self.ctx.choose("recv@%d" % sock.rx_delivered, len(cands) + 1, 0)
